@@ -160,7 +160,7 @@ var arpaProp = vp.Register(vp.Prop[Case]{
 })
 
 // enumLabels is the alphabet of the exhaustive label-sequence enumeration.
-var enumLabels = []string{"0", "1", "10", "255", "256", "00", "01", "a", "f", "g", "aa", "1a", "x-y"}
+var enumLabels = []string{"0", "1", "10", "255", "256", "00", "01", "a", "f", "g", "aa", "1a", "x-y", "1_0"}
 
 // TestEnumerate checks every label sequence of length 0..L over enumLabels,
 // under both roots, with and without a trailing dot, and additionally with an
